@@ -13,19 +13,25 @@ import Uquic.Proofs.FieldsRespWriter
 
 namespace Uquic.Props.C19
 open Uquic.Model.H3.Fields Uquic.Model.H3.Writer Uquic.Gen.H3Fields Uquic.Proofs.Fields
-open Uquic.Spec.H3Fields (WellFormed WellFormedG PseudoUnique ClNumeric isPseudoName)
+open Uquic.Spec.H3Fields (WellFormed PseudoUnique ClNumeric isPseudoName)
 open Uquic.Spec.H3FieldsMon (requestRules responseRules)
 
 abbrev Field := List Nat × List Nat
 
 /-! ## 1. accept_sound -/
 
-/-- `accept_sound_partial`: every header section parseHeaders accepts satisfies every clause of the
-    reference predicate, except that a Content-Length field may have an EMPTY value (finding
-    C19-empty-content-length: the unchanged code accepts and drops it). Uniqueness of pseudo-header
-    fields is included at full strength (the defect repaired by /repo commit 9602041). -/
-theorem accept_sound_partial (ext : List Nat → Bool) (isReq : Bool) (lim : Int) (hlim : 0 ≤ lim) (fs : List Field) (h : Hdr)
-    (hp : parseHeaders ext isReq lim fs = .ok h) : WellFormedG true isReq lim fs := by
+/-- rejection class of a result (`none` = accepted) -/
+def errOf {α} : Except Err α → Option Err
+  | .error e => some e
+  | .ok _ => none
+
+/-- `accept_sound` (full strength): every header section parseHeaders accepts satisfies the reference
+    predicate `WellFormed` — names lower-case valid tokens, values without forbidden bytes, no
+    connection-specific field, TE only "trailers", pseudo-fields known / of the right kind / ahead of
+    regular fields / UNIQUE (defect repaired by /repo commit 9602041), Content-Length single-valued and
+    numeric — an empty value is rejected since /repo commit 258b529 —, size within the limit. -/
+theorem accept_sound (ext : List Nat → Bool) (isReq : Bool) (lim : Int) (hlim : 0 ≤ lim) (fs : List Field) (h : Hdr)
+    (hp : parseHeaders ext isReq lim fs = .ok h) : WellFormed isReq lim fs := by
   obtain ⟨s, inv, _, hf⟩ := parse_ok_inv ext isReq lim fs false h hp
   refine ⟨inv.names, inv.values, inv.noconn, inv.te, inv.known, inv.first, ?_, ?_, ?_, ?_⟩
   · unfold PseudoUnique; rw [← inv.seen]; exact inv.nodup
@@ -34,14 +40,13 @@ theorem accept_sound_partial (ext : List Nat → Bool) (isReq : Bool) (lim : Int
     | false => exact absurd hfn ((inv.clNone hr).1 f hf')
     | true => rw [inv.clSome hr f hf' hfn, inv.clSome hr g hg hgn]
   · intro f hf' hfn
-    refine ⟨Or.inr rfl, ?_⟩
     cases hr : s.readCL with
     | false => exact absurd hfn ((inv.clNone hr).1 f hf')
     | true =>
       rw [inv.clSome hr f hf' hfn]
-      rcases finish_cl s h hf with he | ⟨_, hd⟩
-      · rw [he]; simp
-      · exact hd
+      rcases finish_cl s h hf with he | ⟨_, hne, hd, _⟩
+      · rw [hr] at he; cases he
+      · exact ⟨hne, hd⟩
   · show Uquic.Spec.H3Fields.sectionSize fs ≤ lim
     by_cases hfs : fs = []
     · subst hfs; simpa [Uquic.Spec.H3Fields.sectionSize] using hlim
@@ -49,24 +54,17 @@ theorem accept_sound_partial (ext : List Nat → Bool) (isReq : Bool) (lim : Int
       have := inv.lim
       omega
 
-/-- `accept_sound`: with no empty Content-Length value in the section, acceptance implies the full
-    reference predicate `WellFormed`. -/
-theorem accept_sound (ext : List Nat → Bool) (isReq : Bool) (lim : Int) (hlim : 0 ≤ lim) (fs : List Field) (h : Hdr)
-    (hcl : ∀ f ∈ fs, f.1 = nContentLength → f.2 ≠ [])
-    (hp : parseHeaders ext isReq lim fs = .ok h) : WellFormed isReq lim fs := by
-  have w := accept_sound_partial ext isReq lim hlim fs h hp
-  exact { w with cl_numeric := fun f hf hn => ⟨Or.inl (hcl f hf hn), (w.cl_numeric f hf hn).2⟩ }
+/-- the witness of the defect repaired by /repo commit 258b529 (`content-length: ""` was accepted and
+    silently dropped) is rejected as an invalid Content-Length -/
+theorem empty_content_length_rejected (ext : List Nat → Bool) (isReq : Bool) (lim : Int) (hlim : 0 ≤ lim)
+    (pre post : List Field) : ∃ e, parseHeaders ext isReq lim (pre ++ (nContentLength, []) :: post) = .error e := by
+  cases hp : parseHeaders ext isReq lim (pre ++ (nContentLength, []) :: post) with
+  | error e => exact ⟨e, rfl⟩
+  | ok h =>
+    have := (accept_sound ext isReq lim hlim _ h hp).cl_numeric (nContentLength, []) (by simp) rfl
+    exact absurd rfl this.1
 
-/-- the statement at full strength … -/
-def accept_sound_full : Prop :=
-  ∀ (ext : List Nat → Bool) (isReq : Bool) (lim : Int), 0 ≤ lim → ∀ (fs : List Field) (h : Hdr),
-    parseHeaders ext isReq lim fs = .ok h → WellFormed isReq lim fs
-
-/-- … is false of the unchanged code: `content-length: ""` is accepted (known finding). -/
-theorem accept_sound_full_witness : ¬ accept_sound_full := by
-  intro H
-  have := H (fun _ => true) true 1000 (by decide) [(nContentLength, [])] _ rfl
-  exact absurd this.cl_numeric (by decide)
+example : errOf (parseHeaders (fun _ => true) true 1000 [(nContentLength, [])]) = some .clInvalid := by decide
 
 /-- pseudo-header fields of an accepted section are pairwise distinct — at full strength. -/
 theorem pseudo_unique (ext : List Nat → Bool) (isReq : Bool) (lim : Int) (fs : List Field) (h : Hdr)
@@ -83,11 +81,6 @@ theorem old_witness_rejected (ext : List Nat → Bool) :
   | error e => exact ⟨e, rfl⟩
   | ok h => exact absurd (pseudo_unique ext true _ _ h hp) (by decide)
 
-/-- rejection class of a result (`none` = accepted) -/
-def errOf {α} : Except Err α → Option Err
-  | .error e => some e
-  | .ok _ => none
-
 /-- … and the class is "duplicate pseudo header" -/
 example : errOf (parseHeaders (fun _ => true) true 100000
       [(nMethod, B "GET"), (nScheme, B "https"), (nAuthority, B "a"), (nPath, []), (nPath, B "/x")])
@@ -102,28 +95,27 @@ example : ∃ h, parseHeaders (fun _ => true) true 1000
 
 /-- "anything else is rejected": a section violating the (weakened) reference predicate is rejected -/
 theorem malformed_rejected (ext : List Nat → Bool) (isReq : Bool) (lim : Int) (hlim : 0 ≤ lim) (fs : List Field)
-    (hbad : ¬ WellFormedG true isReq lim fs) : ∃ e, parseHeaders ext isReq lim fs = .error e := by
+    (hbad : ¬ WellFormed isReq lim fs) : ∃ e, parseHeaders ext isReq lim fs = .error e := by
   cases hp : parseHeaders ext isReq lim fs with
   | error e => exact ⟨e, rfl⟩
-  | ok h => exact absurd (accept_sound_partial ext isReq lim hlim fs h hp) hbad
+  | ok h => exact absurd (accept_sound ext isReq lim hlim fs h hp) hbad
 
 /-! ## 1b. completeness: the accepted sections are characterised exactly -/
 
-/-- parseHeaders accepts EXACTLY the sections that satisfy the reference predicate (with the empty
-    Content-Length weakening of the unchanged code) and whose Content-Length fits 63 bits. -/
+/-- parseHeaders accepts EXACTLY the sections that satisfy the reference predicate and whose
+    Content-Length fits 63 bits. -/
 theorem accept_iff (ext : List Nat → Bool) (isReq : Bool) (lim : Int) (hlim : 0 ≤ lim) (fs : List Field) :
-    (∃ h, parseHeaders ext isReq lim fs = .ok h) ↔ (WellFormedG true isReq lim fs ∧ ClFits fs) := by
+    (∃ h, parseHeaders ext isReq lim fs = .ok h) ↔ (WellFormed isReq lim fs ∧ ClFits fs) := by
   constructor
   · rintro ⟨h, hp⟩
-    exact ⟨accept_sound_partial ext isReq lim hlim fs h hp, fits_of_ok ext isReq lim fs h hp⟩
+    exact ⟨accept_sound ext isReq lim hlim fs h hp, fits_of_ok ext isReq lim fs h hp⟩
   · rintro ⟨wf, hfit⟩
     exact accept_complete_of_wf ext isReq lim fs wf hfit
 
 /-- every well-formed section (full reference predicate) with a Content-Length below 2^63 is accepted -/
 theorem accept_complete (ext : List Nat → Bool) (isReq : Bool) (lim : Int) (fs : List Field)
     (wf : WellFormed isReq lim fs) (hfit : ClFits fs) : ∃ h, parseHeaders ext isReq lim fs = .ok h :=
-  accept_complete_of_wf ext isReq lim fs
-    { wf with cl_numeric := fun f hf hn => ⟨Or.inr rfl, (wf.cl_numeric f hf hn).2⟩ } hfit
+  accept_complete_of_wf ext isReq lim fs wf hfit
 
 /-- the hypotheses of `accept_complete` are satisfiable by a non-trivial section -/
 example : WellFormed true 1000 [(nMethod, B "POST"), (nScheme, B "https"), (nAuthority, B "a"), (nPath, B "/x"),
@@ -137,12 +129,13 @@ example : WellFormed true 1000 [(nMethod, B "POST"), (nScheme, B "https"), (nAut
 
 /-- For every request the writer's own validation accepts (`encodeHeaders ua w = ok fs`) and that is a
     valid net/http message (`ValidRequest`: token method, URL parts without control bytes, token
-    trailer keys, int64 Content-Length and — NOT enforced by the writer, finding C19-request-te —
-    `TE` carrying only "trailers"), the emitted section is well formed (full reference predicate), the
-    parser accepts it under every limit ≥ its size, and it decodes to the same fields: method, authority
-    (= punycoded host), path, scheme, protocol, Content-Length, and the regular fields exactly as emitted
-    with canonicalised keys. QPACK is a parameter: `fs` is what the encoder is given and what the decoder
-    must return (round-trip contract, sampled by the driver). -/
+    trailer keys, int64 Content-Length — header names and values are checked by the writer itself, TE
+    values other than "trailers" and connection-specific headers are dropped by it), the emitted section
+    is well formed (full reference predicate), the parser accepts it under every limit ≥ its size, and it
+    decodes to the same fields: method, authority (= punycoded host), path, scheme, protocol,
+    Content-Length, and the regular fields exactly as emitted with canonicalised keys. QPACK is a
+    parameter: `fs` is what the encoder is given and what the decoder must return (round-trip contract,
+    sampled by the driver). -/
 theorem writer_parser_agree (ext : List Nat → Bool) (ua : List Nat) (w : WReq) (fs : List Field)
     (hv : ValidRequest ua w) (hw : encodeHeaders ua w = .ok fs) (lim : Int)
     (hlim : Uquic.Spec.H3Fields.sectionSize fs ≤ lim) :
@@ -209,7 +202,7 @@ theorem writer_parser_agree (ext : List Nat → Bool) (ua : List Nat) (w : WReq)
   · intro hsend
     have hex : ∃ f ∈ pseudoPart w host (emittedPath w host) ++ regularPart ua w, f.1 = nContentLength :=
       ⟨(nContentLength, fmtNat w.contentLength.toNat), by simp [regularPart, hsend], rfl⟩
-    obtain ⟨r1, r2⟩ := (parse_cl_result ext true lim _ h hp _ f1 hall).1 hex
+    obtain ⟨r1, r2⟩ := (parse_cl_result ext true lim _ h hp _ hall).1 hex
     rw [decodedHeaders_parts _ _ (fun f hf => (hP1 f hf).1)] at r2
     refine ⟨?_, r2⟩
     rw [r1, f3]
@@ -236,7 +229,7 @@ theorem writer_parser_agree (ext : List Nat → Bool) (ua : List Nat) (w : WReq)
           · split at hf
             · simp only [List.mem_singleton] at hf; subst hf; exact t10 hn
             · simp at hf
-          · obtain ⟨kv, _, h1, _, h3⟩ := headerFields_mem w.headers f hf
+          · obtain ⟨kv, _, h1, _, h3, _⟩ := headerFields_mem w.headers f hf
             exact h3 (h1 ▸ hn ▸ cl_in_skipped)
           · split at hf
             · simp only [List.mem_singleton] at hf; subst hf; exact t11 hn
@@ -244,7 +237,7 @@ theorem writer_parser_agree (ext : List Nat → Bool) (ua : List Nat) (w : WReq)
           · split at hf
             · simp only [List.mem_singleton] at hf; subst hf; exact t12 hn
             · simp at hf
-    obtain ⟨r1, r2⟩ := (parse_cl_result ext true lim _ h hp _ f1 hall).2 hno
+    obtain ⟨r1, r2⟩ := (parse_cl_result ext true lim _ h hp _ hall).2 hno
     rw [decodedHeaders_parts _ _ (fun f hf => (hP1 f hf).1)] at r2
     exact ⟨r1, r2⟩
 
@@ -254,12 +247,14 @@ example : ∃ fs, encodeHeaders defaultUserAgent
       headers := [(B "Cookie", [B "a=1", B "b=2"]), (B "Connection", [B "close"]), (B "Te", [B "trailers"])],
       trailerKeys := [B "X-Checksum"], contentLength := 42, gzip := true } = .ok fs ∧ fs.length = 11 := ⟨_, rfl, rfl⟩
 
-/-- the finding behind hypothesis `ValidRequest.te`: `TE: gzip` is emitted by the writer and the
-    parser rejects the emitted section -/
-theorem writer_te_witness : ∃ w fs, encodeHeaders defaultUserAgent w = .ok fs ∧
-    errOf (parseHeaders (fun _ => true) true 100000 fs) = some .te :=
-  ⟨{ method := B "GET", proto := B "HTTP/1.1", puny := some (B "example.com"), reqURI := B "/", scheme := B "https",
-     headers := [(B "Te", [B "gzip"])], trailerKeys := [], contentLength := 0, gzip := false }, _, rfl, by decide⟩
+/-- the witness of the defect repaired by /repo commit 82b9144: `TE: gzip` is no longer emitted (only
+    "trailers" values survive), so the emitted section is accepted -/
+theorem writer_te_filtered : ∃ fs, encodeHeaders defaultUserAgent
+      { method := B "GET", proto := B "HTTP/1.1", puny := some (B "example.com"), reqURI := B "/", scheme := B "https",
+        headers := [(B "Te", [B "gzip", B "trailers"])], trailerKeys := [], contentLength := 0, gzip := false } = .ok fs ∧
+    fs.filter (fun f => f.1 = nTe) = [(nTe, vTrailers)] ∧
+    errOf (parseHeaders (fun _ => true) true 100000 fs) = none :=
+  ⟨_, rfl, by decide, by decide⟩
 
 /-- For every trailer map of a valid net/http message (token keys, values without forbidden bytes, no
     connection-specific key — `Upgrade` is the one such key httpguts.ValidTrailerHeader lets through,
@@ -287,11 +282,11 @@ example : ∃ fs, writeTrailers [(B "Upgrade", [B "x"])] = some fs ∧
     errOf (parseTrailers (fun _ => true) 1000 fs) = some .forbiddenName := ⟨_, rfl, by decide⟩
 
 /-- For every response header map of a valid net/http message (`ValidResponse`: status 100..999, token
-    keys, values without forbidden bytes, one numeric Content-Length at most and — NOT enforced by the
-    writer, finding C19-response-connection-specific — no connection-specific key and TE only
-    "trailers"), what responseWriter.writeHeader emits is a well-formed response section,
-    updateResponseFromHeaders accepts it under every limit ≥ its size, and the status decodes to the same
-    code. (Keys are ASCII; the model of writeHeader is tied by the `resphdr` op.) -/
+    keys, values without forbidden bytes, one numeric Content-Length at most — connection-specific keys
+    and TE values other than "trailers" are dropped by the writer), what responseWriter.writeHeader emits
+    is a well-formed response section, updateResponseFromHeaders accepts it under every limit ≥ its
+    size, and the status decodes to the same code. (Keys are ASCII; the model of writeHeader is tied by
+    the `resphdr` op.) -/
 theorem response_writer_parser_agree (ext : List Nat → Bool) (st : Int) (hs : List (List Nat × List (List Nat)))
     (clv : List Nat) (hv : ValidResponse st hs clv) (lim : Int)
     (hlim : Uquic.Spec.H3Fields.sectionSize (responseFields st hs) ≤ lim) :
@@ -299,11 +294,14 @@ theorem response_writer_parser_agree (ext : List Nat → Bool) (st : Int) (hs : 
     ∃ r, updateResponseFromHeaders ext lim (responseFields st hs) false = .ok r ∧ r.status = st :=
   response_agree ext st hs clv hv lim hlim
 
-/-- the finding behind `ValidResponse.noconn`: `Connection: close` set by a handler is emitted and the
-    emitted section is rejected -/
-theorem response_connection_witness :
-    errOf (updateResponseFromHeaders (fun _ => true) 100000 (responseFields 200 [(B "Connection", [B "close"])]) false)
-      = some .forbiddenName := by decide
+/-- the witness of the defect repaired by /repo commit 122b789: `Connection: close` (and every other
+    connection-specific key, and `TE: gzip`) set by a handler is no longer emitted -/
+theorem response_connection_filtered :
+    responseFields 200 [(B "Connection", [B "close"]), (B "Keep-Alive", [B "x"]), (B "Te", [B "gzip", B "trailers"]),
+        (B "Upgrade", [B "h2c"]), (B "Server", [B "s"])]
+      = [(nStatus, B "200"), (nTe, vTrailers), (B "server", B "s")] ∧
+    errOf (updateResponseFromHeaders (fun _ => true) 100000 (responseFields 200 [(B "Connection", [B "close"])]) false) = none := by
+  decide
 
 example : responseFields 200 [(B "Content-Type", [B "text/plain"]), (B "Trailer", [B "X-T"]), (B "X-T", [B "v"]),
       (B "Trailer:X-U", [B "w"])]
@@ -345,7 +343,7 @@ theorem parse_error_classes (ext : List Nat → Bool) (isReq : Bool) (lim : Int)
 /-- a malformed request section is answered with a stream error (H3_MESSAGE_ERROR, or the
     H3_EXCESSIVE_LOAD + 431 handling when it is over the limit), never accepted -/
 theorem malformed_request_stream_error (ext urlOK : List Nat → Bool) (lim : Int) (hlim : 0 ≤ lim) (fs : List Field)
-    (hbad : ¬ WellFormedG true true lim fs) :
+    (hbad : ¬ WellFormed true lim fs) :
     ∃ e, requestFromHeaders ext urlOK lim fs false = .error e ∧
       (serverReaction e = ⟨H3_MESSAGE_ERROR, false⟩ ∨ serverReaction e = ⟨H3_EXCESSIVE_LOAD, true⟩) := by
   obtain ⟨e, he⟩ := malformed_rejected ext true lim hlim fs hbad
@@ -365,7 +363,7 @@ theorem malformed_request_stream_error (ext urlOK : List Nat → Bool) (lim : In
 
 /-! ## 3. request_rules / response_rules -/
 
-/-- Every request section requestFromHeaders accepts is well formed (as in `accept_sound_partial`) and
+/-- Every request section requestFromHeaders accepts is well formed (as in `accept_sound`) and
     satisfies the pseudo-header rules the code enforces (`Spec.H3FieldsMon.requestRules`):
     extended CONNECT (CONNECT with a non-empty :protocol) has non-empty :scheme, :path and :authority;
     CONNECT has a non-empty :authority and no (or an empty) :path; every other request has non-empty
@@ -375,7 +373,7 @@ theorem malformed_request_stream_error (ext urlOK : List Nat → Bool) (lim : In
     field is tolerated on CONNECT (§4.4 requires them to be omitted) — see the two examples below. -/
 theorem request_rules (ext urlOK : List Nat → Bool) (lim : Int) (hlim : 0 ≤ lim) (fs : List Field) (q : Bool) (r : Req)
     (hp : requestFromHeaders ext urlOK lim fs q = .ok r) :
-    requestRules fs = true ∧ WellFormedG true true lim fs ∧ q = false := by
+    requestRules fs = true ∧ WellFormed true lim fs ∧ q = false := by
   refine ⟨request_rules_of_ok ext urlOK lim fs q r hp, ?_⟩
   unfold requestFromHeaders at hp
   split at hp
@@ -383,7 +381,7 @@ theorem request_rules (ext urlOK : List Nat → Bool) (lim : Int) (hlim : 0 ≤ 
   rename_i hdr hparse
   obtain ⟨_, _, hq, _⟩ := parse_ok_inv ext true lim fs q hdr hparse
   subst hq
-  exact ⟨accept_sound_partial ext true lim hlim fs hdr hparse, rfl⟩
+  exact ⟨accept_sound ext true lim hlim fs hdr hparse, rfl⟩
 
 /-- the rules are satisfiable: an ordinary request, a CONNECT and an extended CONNECT are accepted -/
 example : (errOf (requestFromHeaders (fun _ => true) (fun _ => true) 1000
@@ -409,7 +407,7 @@ example : errOf (requestFromHeaders (fun _ => true) (fun _ => true) 1000
     observation, the fixed statement does not constrain the status value). -/
 theorem response_rules (ext : List Nat → Bool) (lim : Int) (hlim : 0 ≤ lim) (fs : List Field) (q : Bool) (r : Resp)
     (hp : updateResponseFromHeaders ext lim fs q = .ok r) :
-    responseRules fs = true ∧ WellFormedG true false lim fs ∧ q = false := by
+    responseRules fs = true ∧ WellFormed false lim fs ∧ q = false := by
   refine ⟨response_rules_of_ok ext lim fs q r hp, ?_⟩
   unfold updateResponseFromHeaders at hp
   split at hp
@@ -417,7 +415,7 @@ theorem response_rules (ext : List Nat → Bool) (lim : Int) (hlim : 0 ≤ lim) 
   rename_i hdr hparse
   obtain ⟨_, _, hq, _⟩ := parse_ok_inv ext false lim fs q hdr hparse
   subst hq
-  exact ⟨accept_sound_partial ext false lim hlim fs hdr hparse, rfl⟩
+  exact ⟨accept_sound ext false lim hlim fs hdr hparse, rfl⟩
 
 example : errOf (updateResponseFromHeaders (fun _ => true) 1000 [(nStatus, B "200"), (B "server", B "x")] false) = none ∧
     errOf (updateResponseFromHeaders (fun _ => true) 1000 [(nStatus, B "-5")] false) = none ∧
